@@ -95,8 +95,9 @@ type g struct {
 	cur     tsig
 	usesIJ  bool
 	aliases map[int]map[string]string // file -> alias last segment -> namespace
-	mult    int                       // product of the loop bounds around the node being generated
-	cost    int                       // estimated node executions of the template being generated
+	lastMsg *Node
+	mult    int // product of the loop bounds around the node being generated
+	cost    int // estimated node executions of the template being generated
 }
 
 // costLimit bounds the estimated work of one render so that call chains through loops cannot
@@ -308,6 +309,10 @@ func (x *g) mapLit(d int) string {
 		"'n': " + fmt.Sprint(x.pick(4)),
 		"'xs': [" + fmt.Sprint(x.pick(9)) + ", " + fmt.Sprint(x.pick(9)) + "]",
 	}
+	if x.o.MapLiterals && x.chance(0.5) {
+		// keys that need escaping when they are emitted as JavaScript
+		parts = append(parts, []string{"'k\"q': 1", "'x-y': 2", "'é': 3", "'a b': 4"}[x.pick(4)], []string{"'q\\'s': 5", "'</k>': 6"}[x.pick(2)])
+	}
 	// source order of the keys varies
 	for i := len(parts) - 1; i > 0; i-- {
 		j := x.pick(i + 1)
@@ -474,6 +479,9 @@ func (x *g) node(depth int) *Node {
 		}
 		if x.chance(0.7) {
 			n.Else = x.block(depth+1, 2, false)
+			if x.chance(0.3) {
+				n.S = "default-first" // the {default} clause need not be the last one
+			}
 		}
 		return n
 	case k < 66 && !leaf:
@@ -588,8 +596,59 @@ func (x *g) placeholder() *Node {
 	return &Node{K: "print", E: x.expr(t, 1), Dirs: x.directives(t)}
 }
 
+// twinOf returns a copy of a generated message whose placeholders are other expressions with the
+// same base names (so that the two messages share id and placeholder names), or nil.
+func (x *g) twinOf(m *Node) *Node {
+	swap := map[string]string{"$m.b": "$b", "$b": "$m.b", "$m.a": "$a", "$a": "$m.a", "$m.n": "$n", "$n": "$m.n"}
+	avail := func(e string) bool {
+		root := strings.SplitN(strings.TrimPrefix(e, "$"), ".", 2)[0]
+		return x.hasVar(root)
+	}
+	changed := false
+	var cp func(ns []*Node) []*Node
+	cp = func(ns []*Node) []*Node {
+		var out []*Node
+		for _, n := range ns {
+			c := *n
+			if c.K == "print" && len(c.Dirs) == 0 {
+				if o, ok := swap[c.E]; ok && avail(o) {
+					c.E = o
+					x.used[strings.SplitN(strings.TrimPrefix(o, "$"), ".", 2)[0]] = true
+					changed = true
+				}
+			}
+			c.Body = cp(n.Body)
+			c.Else = cp(n.Else)
+			if n.Conds != nil {
+				c.Conds = nil
+				for _, cd := range n.Conds {
+					c.Conds = append(c.Conds, &Cond{E: cd.E, Body: cp(cd.Body)})
+				}
+			}
+			out = append(out, &c)
+		}
+		return out
+	}
+	t := cp([]*Node{m})[0]
+	if !changed {
+		return nil
+	}
+	return t
+}
+
 func (x *g) msg() *Node {
-	n := &Node{K: "msg", S: []string{"", "a description", "other desc"}[x.pick(3)]}
+	if x.lastMsg != nil && x.chance(0.35) {
+		if t := x.twinOf(x.lastMsg); t != nil {
+			return t
+		}
+	}
+	n := x.msg0()
+	x.lastMsg = n
+	return n
+}
+
+func (x *g) msg0() *Node {
+	n := &Node{K: "msg", S: []string{"", "a description", "other desc", "verb|noun", "50% off: a=b \"q\""}[x.pick(5)]}
 	if x.chance(0.25) {
 		n.M = []string{"noun", "verb"}[x.pick(2)]
 	}
